@@ -27,7 +27,7 @@ THEOREMS = ['C01_at_most_one_stop', 'C01_at_most_one_stop_from_empty', 'C01_exac
             'C01_pickup_radius_satisfied', 'C01_pickup_conic_satisfied', 'C01_conic_pickup_succeeds',
             'C01_pickup_thickness_satisfied', 'C01_pickups_satisfied_partial',
             'C01_shift_moves_height', 'C01_mrh_solve_correct', 'C01_mrh_kernel_is_shift',
-            'C01_mrh_solve_places', 'C01_image_solve_focus', 'C01_image_solve_kernel', 'C01_image_solve_places']
+            'C01_mrh_solve_places', 'C01_image_solve_focus', 'C01_image_solve_kernel', 'C01_image_solve_places', 'C01_ready_made_then_keyword']
 COQ_TARGETS = ['Model/M_C01_Run.vo', 'Model/Paraxial.vo', 'Lemmas/L_C01_solve.vo', 'Lemmas/L_C01_pickup.vo']
 TRUSTED_BASE = BASE_TRUSTED + [
     'tools/py2coq_c01.py (object lists, constructors, kwargs.get, vector-scalar arithmetic on top of py2coq), validated like the base translator by running every kernel against the real method on real Optic / WavelengthGroup / Pickup / Variable objects',
@@ -326,9 +326,79 @@ def _witness(h, v):
     return w
 
 
+# --------------------------------------------------------------------------
+# fixed corpus: one history per CLASS of route / input that matters (independent of the random stream)
+# --------------------------------------------------------------------------
+def _obj(t0, mat='air'):
+    return ['add', 0, 'standard', INF, 0.0, [], t0, mat, False, 0.0, 0.0, 0.0, 0.0]
+
+
+def _kw(i, R, t, mat='air', stop=False, k=0.0, st='standard', c=None, dec=(0.0, 0.0, 0.0, 0.0)):
+    return ['add', i, st, R, k, c or [], t, mat, stop] + list(dec)
+
+
+def corpus():
+    import c01lib
+    W = ['wavelength', 0.55, True]
+    G, F = ['ideal', 1.5168], ['ideal', 1.6727]
+    out = []
+    # immersed object space, objectNA aperture, solves with non-zero heights (behind surface 1), update
+    for n0, NA, idx, h in ((1.33, 0.25, 3, 1.5), (1.515, 0.2, 4, -0.8), (1.0, 0.15, 3, 1.0)):
+        out.append({'ap': ['objectNA', NA], 'nbuild': 7, 'route': 'direct', 'class': 'immersed-objectNA-solve',
+                    'ops': [_obj(30.0, ['ideal', n0] if n0 != 1.0 else 'air'), W, _kw(1, 40.0, 5.0, G, True), _kw(2, -40.0, 12.0),
+                            _kw(3, 60.0, 4.0, F), _kw(4, -90.0, 50.0), _kw(5, INF, 0.0),
+                            ['solve', idx, h], ['set_radius', 45.0, 1], ['update'], ['set_thickness', 6.0, 1], ['update']]})
+    # ready-made Surface objects (add_surface(new_surface=...)) mixed with keyword surfaces, gaps all different
+    out.append({'ap': ['EPD', 8.0], 'nbuild': 7, 'route': 'direct', 'class': 'ready-made-surfaces',
+                'ops': [_obj(INF), W, _kw(1, 50.0, 4.0, G, True), ['add_obj', 2, 'standard', -50.0, 0.0, [], 30.0, 'air', False, 0.0],
+                        _kw(3, -40.0, 2.5, F), _kw(4, INF, 41.0), _kw(5, INF, 0.0),
+                        ['set_thickness', 3.0, 2], ['solve', 5, 0.0]]})
+    out.append({'ap': ['EPD', 6.0], 'nbuild': 8, 'route': 'reuse', 'class': 'ready-made-stop-and-image',
+                'ops': [_obj(120.0), W, _kw(1, 35.0, 3.0, G), _kw(2, -80.0, 7.5),
+                        ['add_obj', 3, 'standard', INF, 0.0, [], 12.0, 'air', True, 0.0], _kw(4, 60.0, 5.0, G), _kw(5, -60.0, 55.0),
+                        ['add_obj', 6, 'image', INF, 0.0, [], 0.0, 'same', False, 0.0],
+                        ['image_solve'], ['set_index', 1.6, 4], ['set_thickness', 100.0, 0], ['set_thickness', 4.0, 3]]})
+    # a thickness of exactly 0, integer / numpy typed arguments, second stop flag
+    out.append({'ap': ['EPD', 7.0], 'nbuild': 7, 'route': 'reuse', 'class': 'zero-gap-int-types',
+                'types': {'2': {'R': 'int', 't': 'int', 'k': 'np.int64'}, '3': {'t': 'arr0d_i', 'R': 'np.int64'},
+                          '4': {'t': 'int'}, '7': {'v': 'int'}},
+                'ops': [_obj(INF), W, _kw(1, 60.0, 5.0, G, True, k=-1.0), _kw(2, -60.0, 0.0, F), _kw(3, -200.0, 7.0, 'air', True),
+                        _kw(4, INF, 40.0), _kw(5, INF, 0.0),
+                        ['set_thickness', 2.0, 2], ['set_index', 1.7, 1], ['set_index', 1.55, 2], ['set_thickness', 9.0, 0]]})
+    # placeholder coefficient lists of ints / tuples / int arrays, filled in afterwards; asphere under radius pickups
+    for cls in ('list_i', 'tuple_i', 'arr_i', 'list_mixed'):
+        out.append({'ap': ['EPD', 9.0], 'nbuild': 6, 'route': 'direct', 'class': 'asphere-placeholder-' + cls,
+                    'types': {'2': {'c': cls}},
+                    'ops': [_obj(INF), W, _kw(1, 40.0, 6.0, G, True, k=-0.5, st='even_asphere', c=[0.0, 0.0, 0.0]), _kw(2, INF, 4.0),
+                            _kw(3, -60.0, 50.0), _kw(4, INF, 0.0),
+                            ['set_coeff', -2.5e-4, 1, 0], ['var', 'asphere_coeff', 1, False, 3.75e-9, 2],
+                            ['var', 'asphere_coeff', 1, True, 0.02, 1], ['pickup', 2, 'radius', 1, -1.0, 0.0],
+                            ['set_coeff', 1e-6, 1, -1], ['set_radius', 500.0, 2], ['update'], ['set_radius', INF, 1]]})
+    out.append({'ap': ['EPD', 9.0], 'nbuild': 6, 'route': 'direct', 'class': 'polynomial-chebyshev-radius-edits',
+                'ops': [_obj(INF), W, _kw(1, 70.0, 5.0, G, True, st='polynomial', c=[[0.0, 1e-4], [2e-4, 0.0]]),
+                        _kw(2, INF, 6.0), _kw(3, -80.0, 40.0, 'air', False, st='chebyshev', c=[[0.0, 1e-3], [1e-3, 1e-4]]), _kw(4, INF, 0.0),
+                        ['pickup', 2, 'radius', 3, 1.0, 0.0], ['set_radius', INF, 1], ['set_radius', 65.0, 1], ['set_conic', -1.0, 3],
+                        ['set_radius', -75.0, 2], ['update']]})
+    # chained pickups / solve order: pickups before solves, solve on surface 1 and on the image surface
+    out.append({'ap': ['EPD', 10.0], 'nbuild': 7, 'route': 'direct', 'class': 'pickups-then-solves',
+                'ops': [_obj(INF), W, _kw(1, 50.0, 5.0, G, True), _kw(2, -50.0, 40.0), _kw(3, 80.0, 3.0, F), _kw(4, INF, 30.0), _kw(5, INF, 0.0),
+                        ['pickup', 1, 'radius', 2, -1.0, 0.0], ['pickup', 1, 'thickness', 3, 1.0, 0.0], ['solve', 5, 0.0],
+                        ['set_radius', 70.0, 1], ['set_thickness', 8.0, 1], ['update'], ['set_thickness', 12.0, 2], ['update']]})
+    # a stop inserted IN FRONT of the existing stop, removal, a second primary wavelength
+    out.append({'ap': ['EPD', 6.0], 'nbuild': 7, 'route': 'direct', 'class': 'insert-stop-in-front',
+                'ops': [_obj(INF), W, _kw(1, 50.0, 5.0, G), _kw(2, -50.0, 10.0), _kw(3, 80.0, 3.0, F, True), _kw(4, -70.0, 30.0), _kw(5, INF, 0.0),
+                        ['add', 2, 'standard', 30.0, 0.0, [], 1.0, 'air', True, 0.0, 0.0, 0.0, 0.0], ['wavelength', 0.6, True],
+                        ['add', 5, 'standard', 44.0, 0.0, [], 1.0, 'air', True, 0.0, 0.0, 0.0, 0.0], ['remove', 2]]})
+    for h in out:
+        h.setdefault('types', {})
+        c01lib.place_ready(h)
+    return out
+
+
+
 def system_checks(ctx):
     import c01lib
-    hists = _histories(ctx, ctx.n(90, 1500))
+    hists = corpus() + _histories(ctx, ctx.n(90, 1500))
     res = {'name': 'edit-histories-model-vs-implementation', 'n': 0, 'nontrivial': 0, 'samples': [],
            'disagreements': [], 'histogram': {}}
     try:
@@ -389,7 +459,9 @@ def system_checks(ctx):
             seen_ids.add(fid)
             res2['disagreements'].append(w)
     res2['histogram'] = {'histories': len(hists) + len(extra), 'violated_clause_counts': clauses,
-                         'argument_type_classes': c01lib.type_histogram(hists + extra)}
+                         'argument_type_classes': c01lib.type_histogram(hists + extra),
+                         'routes_and_entry_points': c01lib.route_histogram(hists + extra),
+                         'corpus_classes': [h_['class'] for h_ in corpus()]}
     yield res2
 
 
@@ -398,6 +470,12 @@ def search(ctx, broken, disagreements):
     import c01lib
     found = []
     known = set()
+    for h in corpus():
+        v = c01lib.check_history(h)
+        if v:
+            w = _witness(h, v[0])
+            if _finding_of(w) is None:
+                return [w]
     for salt, kw in ((11, {}), (12, {'focus': 'thickness'}), (13, {'focus': 'solve'}), (14, {'focus': 'pickup'}),
                      (15, {'focus': 'index'}), (17, {'focus': 'asphere'}), (16, {'build_only': True})):
         for h in _histories(ctx, ctx.n(120, 1500), salt=salt, **kw):
@@ -406,7 +484,7 @@ def search(ctx, broken, disagreements):
                 w = _witness(h, v[0])
                 fid = _finding_of(w)
                 if fid is None:
-                    return w            # a violation that is not one of the listed findings
+                    return [w] + found  # a violation that is not one of the listed findings comes first
                 if fid not in known:
                     known.add(fid)
                     found.append(w)
@@ -424,6 +502,14 @@ def _finding_of(w):
     """id of the listed finding that explains this witness completely, else None"""
     c = w.get('clause')
     op = w.get('op') or []
+    if c == 'solve-height' and w.get('independent_ray'):
+        # optiland's own marginal ray sits at the requested height, the marginal ray of the aperture definition
+        # does not.  Explained only when a solve on surface <= 1 has pushed the first surface off z = 0 (the
+        # paraxial helpers measure the entrance pupil from there); anything else alarms.
+        z1 = w.get('first_surface_z')
+        if z1 is not None and abs(z1) > 1e-9 and any(s_[0] <= 1 for s_ in (w.get('solves') or [])):
+            return 'solve-moves-first-surface'
+        return None
     if c == 'solve-height':
         # (the repaired solve is exact for a fixed launch ray: what remains are the two open findings;
         #  a miss with an unchanged launch and no later solve in front is the D03 regression)
@@ -527,6 +613,15 @@ REPLAYS = {
         ['add', 2, 'standard', -60.0, 0.0, [], 50.0, 'air', False, 0.0, 0.0, 0.0, 0.0],
         ['add', 3, 'standard', INF, 0.0, [], 0.0, 'air', False, 0.0, 0.0, 0.0, 0.0],
         ['image_solve']]},
+    'solve-moves-first-surface': {'ap': ['EPD', 10.0], 'nbuild': 7, 'ops': [
+        ['add', 0, 'standard', INF, 0.0, [], 200.0, 'air', False, 0.0, 0.0, 0.0, 0.0],
+        ['wavelength', 0.55, True],
+        ['add', 1, 'standard', 50.0, 0.0, [], 5.0, ['ideal', 1.5], False, 0.0, 0.0, 0.0, 0.0],
+        ['add', 2, 'standard', -50.0, 0.0, [], 10.0, 'air', True, 0.0, 0.0, 0.0, 0.0],
+        ['add', 3, 'standard', 80.0, 0.0, [], 3.0, ['ideal', 1.6], False, 0.0, 0.0, 0.0, 0.0],
+        ['add', 4, 'standard', -70.0, 0.0, [], 60.0, 'air', False, 0.0, 0.0, 0.0, 0.0],
+        ['add', 5, 'standard', INF, 0.0, [], 0.0, 'air', False, 0.0, 0.0, 0.0, 0.0],
+        ['solve', 1, 3.0]]},
     'set-index-mirror-media': {'ap': ['EPD', 5.0], 'nbuild': 6, 'ops': _MIRROR + [['set_index', 1.41, 1]]},
     'solve-changes-launch': {'ap': ['imageFNO', 5.0], 'nbuild': 8, 'ops': [
         ['add', 0, 'standard', INF, 0.0, [], INF, 'air', False, 0.0, 0.0, 0.0, 0.0],
